@@ -485,6 +485,199 @@ func (h *stHist) qIter() (bool, []stKV) {
 	return ok, r
 }
 
+// qIterRange: Tree.Iterator(begin, end) / Tree.ReverseIterator(begin, end), decoded.
+func (h *stHist) qIterRange(begin, end []byte, rev bool) (bool, []stKV) {
+	var r []stKV
+	ok := catch(func() {
+		var it interface {
+			Valid() bool
+			Next()
+			Key() []byte
+			Value() []byte
+			Close() error
+		}
+		if rev {
+			it = h.tree.ReverseIterator(begin, end)
+		} else {
+			it = h.tree.Iterator(begin, end)
+		}
+		defer it.Close()
+		for ; it.Valid(); it.Next() {
+			var leaf sumtree.Leaf
+			if err := proto.Unmarshal(it.Value(), &leaf); err != nil {
+				panic(err)
+			}
+			r = append(r, stKV{append([]byte{}, it.Key()[7:]...), stBig(leaf.Leaf.Accumulation)})
+		}
+	})
+	return ok, r
+}
+
+// refRange: what a sorted map answers for an ordered scan with an inclusive lower and an exclusive upper
+// bound.  A nil bound is "unbounded"; the empty NON-nil slice is the empty key (as a lower bound it admits
+// everything, as an upper bound nothing lies below it).  Recomputed from the plain map.
+func (h *stHist) refRange(sorted []string, begin, end []byte, rev bool) string {
+	var ks []string
+	for _, k := range sorted {
+		if begin != nil && k < string(begin) {
+			continue
+		}
+		if end != nil && !(k < string(end)) {
+			continue
+		}
+		ks = append(ks, k)
+	}
+	if rev {
+		for i, j := 0, len(ks)-1; i < j; i, j = i+1, j-1 {
+			ks[i], ks[j] = ks[j], ks[i]
+		}
+	}
+	var wb strings.Builder
+	wb.WriteString("ok")
+	for _, k := range ks {
+		wb.WriteByte(' ')
+		wb.WriteString(stOutKey([]byte(k)))
+		wb.WriteByte('=')
+		wb.WriteString(h.ref.m[k].String())
+	}
+	return wb.String()
+}
+
+// boundShape names the shape class of one iteration / subset bound relative to the current contents.
+func (h *stHist) boundShape(b []byte) string {
+	switch {
+	case b == nil:
+		return "nil"
+	case len(b) == 0:
+		return "empty"
+	}
+	if _, ok := h.ref.m[string(b)]; ok {
+		return "present"
+	}
+	return "absent"
+}
+
+// randBound draws one bound for the shape class `want` ("nil","empty","present","absent","any").
+func (h *stHist) randBound(want string, sorted []string) []byte {
+	g := h.g
+	switch want {
+	case "nil":
+		return nil
+	case "empty":
+		return []byte{}
+	case "present":
+		var ne []string
+		for _, k := range sorted {
+			if k != "" {
+				ne = append(ne, k)
+			}
+		}
+		if len(ne) == 0 {
+			return []byte{}
+		}
+		return []byte(ne[g.Intn(len(ne))])
+	case "absent":
+		// an absent key of the closure, or a present key with a byte appended / its last byte dropped or bumped
+		for try := 0; try < 6; try++ {
+			var c string
+			switch g.Intn(4) {
+			case 0, 1:
+				c = h.clos[g.Intn(len(h.clos))]
+			case 2:
+				if len(sorted) > 0 {
+					c = sorted[g.Intn(len(sorted))] + string([]byte{[]byte{0, 1, 'a', 0xff}[g.Intn(4)]})
+				}
+			default:
+				if len(sorted) > 0 {
+					c = sorted[g.Intn(len(sorted))]
+					if len(c) > 0 {
+						b := []byte(c)
+						b[len(b)-1]++
+						c = string(b)
+					}
+				}
+			}
+			if _, ok := h.ref.m[c]; !ok && c != "" {
+				return []byte(c)
+			}
+		}
+		return []byte("\xff\xff\xff\xff")
+	}
+	return h.randBound([]string{"nil", "empty", "present", "present", "absent", "absent"}[g.Intn(6)], sorted)
+}
+
+// iterOracle: ordered iteration for ALL bound shapes, both directions, against the sorted Go map.
+// Every pass covers: (nil,nil); (begin,nil) and (nil,end) for a present, an absent and the empty non-nil
+// bound; (begin,end) with begin<end, begin=end, begin>end; each forward and reverse.
+func (h *stHist) iterOracle(sorted []string) {
+	cls := h.cls()
+	type shape struct{ b, e string }
+	shapes := []shape{{"nil", "nil"}, {"present", "nil"}, {"absent", "nil"}, {"empty", "nil"},
+		{"nil", "present"}, {"nil", "absent"}, {"nil", "empty"}, {"empty", "empty"},
+		{"present", "present"}, {"present", "absent"}, {"absent", "present"}, {"absent", "absent"}, {"any", "any"}}
+	for _, sh := range shapes {
+		begin, end := h.randBound(sh.b, sorted), h.randBound(sh.e, sorted)
+		if begin != nil && end != nil && len(end) > 0 {
+			switch h.g.Intn(6) {
+			case 0: // begin = end
+				end = append([]byte{}, begin...)
+			case 1: // make sure begin > end happens
+				if string(begin) < string(end) {
+					begin, end = end, begin
+				}
+			}
+		}
+		rel := ""
+		if begin != nil && end != nil {
+			switch {
+			case string(begin) == string(end):
+				rel = ":begin=end"
+			case string(begin) > string(end):
+				rel = ":begin>end"
+			default:
+				rel = ":begin<end"
+			}
+		}
+		// does some LATER key of the tree fail to extend `begin` as a byte prefix (an open-ended scan that
+		// degenerates into a prefix scan would drop it)?
+		ext := ""
+		if len(begin) > 0 && end == nil {
+			ext = ":all-later-keys-extend-begin"
+			for _, k := range sorted {
+				if k >= string(begin) && !strings.HasPrefix(k, string(begin)) {
+					ext = ":later-key-does-not-extend-begin"
+					break
+				}
+			}
+		}
+		shp := "begin=" + h.boundShape(begin) + ",end=" + h.boundShape(end) + rel + ext
+		dirs := []bool{false, true}
+		if sh.b != "nil" && sh.e != "nil" && h.g.Intn(2) == 0 { // two-sided shapes: one direction per pass
+			dirs = dirs[h.g.Intn(2):][:1]
+		}
+		for _, rev := range dirs {
+			dir := "fwd"
+			if rev {
+				dir = "rev"
+			}
+			h.o.Count("oracle.iter." + dir + "." + shp)
+			want := h.refRange(sorted, begin, end, rev)
+			ok, kvs := h.qIterRange(begin, end, rev)
+			got := "panic"
+			if ok {
+				got = stIterStr(kvs)
+			}
+			if got != want {
+				q := "iter"
+				if rev {
+					q = "riter"
+				}
+				h.fail("iter:"+dir+":"+shp+":"+cls, q+" "+stTok(begin)+" "+stTok(end), got, want)
+			}
+		}
+	}
+}
+
 func stSplitStr(r [3]*big.Int) string { return fmt.Sprintf("%s %s %s", r[0], r[1], r[2]) }
 
 func stIterStr(kvs []stKV) string {
@@ -537,13 +730,31 @@ func (h *stHist) emitQuery() {
 		h.o.Emit("sumtree total", obsInt(ok, v), true)
 		h.o.Count("op.total")
 	default:
-		ok, kvs := h.qIter()
+		if h.g.Intn(3) == 0 {
+			ok, kvs := h.qIter()
+			obs := "panic"
+			if ok {
+				obs = stIterStr(kvs)
+			}
+			h.o.Emit("sumtree iter", obs, true)
+			h.o.Count("op.iter")
+			return
+		}
+		// bounded iteration, any bound shape, either direction (replayed by the model's iterRange)
+		sorted := h.ref.sorted()
+		begin, end := h.randBound("any", sorted), h.randBound("any", sorted)
+		rev := h.g.Intn(2) == 0
+		ok, kvs := h.qIterRange(begin, end, rev)
 		obs := "panic"
 		if ok {
 			obs = stIterStr(kvs)
 		}
-		h.o.Emit("sumtree iter", obs, true)
-		h.o.Count("op.iter")
+		name := "iter"
+		if rev {
+			name = "riter"
+		}
+		h.o.Emit("sumtree "+name+" "+stTok(begin)+" "+stTok(end), obs, true)
+		h.o.Count("op." + name + ".bounded")
 	}
 }
 
@@ -603,8 +814,8 @@ func (h *stHist) oracle(levels []stLevel, bad string) {
 			}
 		}
 	}
-	// subset: ~30 random pairs (incl. lo>hi), nil = unbounded
-	for i := 0; i < 30; i++ {
+	// subset: ~22 random pairs (incl. lo>hi), nil = unbounded; the 8 nil / empty / key bound shapes follow in subsetShapes
+	for i := 0; i < 22; i++ {
 		var lo, hi []byte
 		los, his := h.clos[h.g.Intn(len(h.clos))], h.clos[h.g.Intn(len(h.clos))]
 		lo, hi = []byte(los), []byte(his) // "" -> []byte{} (non-nil)
@@ -681,8 +892,65 @@ func (h *stHist) oracle(levels []stLevel, bad string) {
 			h.fail("iter:"+cls, "iter", got, wb.String())
 		}
 	}
+	h.iterOracle(sorted)
+	h.subsetShapes()
 	// well-formedness of the raw store
 	h.wellFormed(levels, bad, sorted)
+}
+
+// subsetShapes: the nil-vs-empty-slice distinction of the SubsetAccumulation bounds, every pass:
+// nil = "unbounded" (Go doc: beginning / end of the tree), []byte{} = the empty KEY.
+func (h *stHist) subsetShapes() {
+	cls := h.cls()
+	sorted := h.ref.sorted()
+	k := h.randBound([]string{"present", "absent"}[h.g.Intn(2)], sorted)
+	ks := string(k)
+	type q struct {
+		lo, hi []byte
+		want   *big.Int
+		shape  string
+	}
+	total := h.ref.total()
+	ge := func(s string) *big.Int { _, e, g := h.ref.split(s); return e.Add(e, g) }
+	le := func(s string) *big.Int { l, e, _ := h.ref.split(s); return l.Add(l, e) }
+	gt := func(s string) *big.Int { _, _, g := h.ref.split(s); return g }
+	qs := []q{
+		{nil, nil, total, "nil,nil"},
+		{nil, []byte{}, le(""), "nil,empty"},
+		{[]byte{}, nil, ge(""), "empty,nil"},
+		{[]byte{}, []byte{}, new(big.Int).Sub(ge(""), gt("")), "empty,empty"},
+		{nil, k, le(ks), "nil,key"},
+		{[]byte{}, k, new(big.Int).Sub(ge(""), gt(ks)), "empty,key"},
+		{k, nil, ge(ks), "key,nil"},
+		{k, []byte{}, new(big.Int).Sub(ge(ks), gt("")), "key,empty"},
+	}
+	for _, c := range qs {
+		h.o.Count("oracle.subset.shape." + c.shape)
+		ok, v := h.qSubset(c.lo, c.hi)
+		qq := "subset " + stTok(c.lo) + " " + stTok(c.hi)
+		pa := stPA(true)
+		if strings.Contains(c.shape, "key") {
+			_, p := h.ref.m[ks]
+			pa = stPA(p)
+		}
+		key := "subset"
+		if !ok {
+			key = "subset-panic"
+		}
+		if c.shape == "nil,nil" && ok && v.Cmp(c.want) != 0 && v.Cmp(h.ref.val("")) == 0 {
+			// both ends unbounded = the whole tree (Go doc); the answer is the value stored at the empty key:
+			// the `start == nil` branch reads `end == nil` as the empty KEY.  Keyed apart from every other shape.
+			key += ":nil-nil-bounds:returns-empty-key-value:" + cls
+		} else {
+			key += ":" + pa + "-key:" + cls
+		}
+		if !ok {
+			h.fail(key, qq, "panic", c.want.String())
+		} else if v.Cmp(c.want) != 0 {
+			h.fail(key, qq, v.String(), c.want.String())
+		}
+	}
+	// PrefixSum / SplitAcc / Get with the two spellings of the empty key are compared in the per-key loop above.
 }
 
 func (h *stHist) wellFormed(levels []stLevel, bad string, sorted []string) {
